@@ -8,7 +8,7 @@ A fact recognised with a different value is emitted as found, so the proofs that
 import os
 import re
 
-from rustlex import fn_body, fn_defs, inline_calls, match_delim, strip_comments
+from rustlex import fn_body, fn_defs, inline_calls, match_delim, resolve_aliases, strip_comments
 
 KEEP = ("lock", "signature_returns_bool", "drop", "default", "new", "prevent")
 
@@ -243,10 +243,10 @@ def facts(repo):
     # ---- gates of the builders
     wb = impl_body(inj, r"impl\s*(?:<\s*'\w+\s*>)?\s+WhenCalledBuilder\s*<\s*'\w+\s*>\s*\{") or ""
     wab = impl_body(inj, r"impl\s*(?:<\s*'\w+\s*>)?\s+WhenCalledBuilderAsync\s*<\s*'\w+\s*>\s*\{") or ""
-    raw = inline_calls(fn_body(wb, "will_execute_raw") or "", defs, keep=KEEP)
-    we = inline_calls(fn_body(wb, "will_execute") or "", defs, keep=KEEP + ("will_execute_raw",))
-    wrb = inline_calls(fn_body(wb, "will_return_boolean") or "", defs, keep=KEEP)
-    wra = inline_calls(fn_body(wab, "will_return_async") or "", defs, keep=KEEP)
+    raw = resolve_aliases(inline_calls(fn_body(wb, "will_execute_raw") or "", defs, keep=KEEP))
+    we = resolve_aliases(inline_calls(fn_body(wb, "will_execute") or "", defs, keep=KEEP + ("will_execute_raw",)))
+    wrb = resolve_aliases(inline_calls(fn_body(wb, "will_return_boolean") or "", defs, keep=KEEP))
+    wra = resolve_aliases(inline_calls(fn_body(wab, "will_return_async") or "", defs, keep=KEEP))
     F["rawGateBeforeGuard"] = ("Bool", tb(gate_before(raw, r"will_execute_guard\(")))
     F["asyncGateBeforeGuard"] = ("Bool", tb(gate_before(wra, r"will_execute_guard\(")))
     if re.search(r"if\s*!\s*self\.expected_signature\.trim\(\)\.ends_with\(\s*\"-> bool\"\s*\)\s*\{\s*panic!", wrb):
